@@ -123,6 +123,18 @@ Proof.
   - split; [discriminate | intros (? & ? & E & _); discriminate E].
 Qed.
 
+(* the roster-after-edits cases: no clause iff every item passes [alias_item_ok] *)
+Theorem check_alias_nil (kt : @ktab L) items :
+  gcheck unlit (CAlias kt items) = [] <->
+  exists ks, dec_ktab unlit kt = Some ks /\ forall it, In it items -> alias_item_ok unlit ks it = true.
+Proof.
+  cbn [gcheck]. destruct (dec_ktab unlit kt) as [ks|].
+  - rewrite clause_nil, forallb_forall. split.
+    + intros H. exists ks. auto.
+    + intros (ks' & E & H). inversion E; subst. exact H.
+  - split; [discriminate | intros (? & E & _); discriminate E].
+Qed.
+
 End Lit.
 
 (* the per-object part: a legal object raises no clause iff its first result is
